@@ -1,11 +1,200 @@
-import MitmVerif.Model.C25
+/-
+  C25 — DNS wire encoding round-trips and decoding is total: property theorems.
+  (model: Model/C25.lean; shared lemmas: Lemmas/C25.lean, Lemmas/C25Msg.lean)
+-/
+import MitmVerif.Lemmas.C25Msg
+set_option linter.unusedVariables false
+set_option linter.unusedSimpArgs false
 namespace MitmVerif.Props.C25
 open MitmVerif MitmVerif.C25
 
-/-- placeholder while the harness is brought up -/
+/-! ### concrete evaluations by the kernel (kept first: they check much faster here) -/
+
+/-- the witness of F-C25a: SRV data `c00c c02b 00` is shorter than the 6 fixed bytes of its layout -/
+def witnessF25a : Bytes :=
+  [0x00,0x01,0x81,0x80,0x00,0x01,0x00,0x01,0x00,0x00,0x00,0x00, 0x04,0x61,0x62,0x63,0x64,0x00, 0x00,0x21,0x00,0x01,
+   0xc0,0x0c, 0x00,0x21,0x00,0x01, 0x00,0x00,0x00,0x3c, 0x00,0x05, 0xc0,0x0c,0xc0,0x2b,0x00]
+
+private theorem witnessF25a_unstable : ∃ m, unpack noIdna witnessF25a = some m ∧
+    ∀ b', pack noIdna m = some b' → unpack noIdna b' ≠ some m := by decide +kernel
+
+/-! ### non-vacuity -/
+
+/-- example.com. TXT "\x02\xc0\x0c" and MX with preference 0xC00C: the former defect witnesses are well-formed … -/
+def exampleMsg : Msg :=
+  { id := 0xBEEF, query := false, opCode := 0, aa := true, tc := false, rd := true, ra := true, reserved := 5, rcode := 3,
+    questions := [⟨[0x65, 0x78, 0x61, 0x6d, 0x70, 0x6c, 0x65, 0x2e, 0x63, 0x6f, 0x6d], 16, 1⟩],
+    answers := [⟨[0x65, 0x78, 0x61, 0x6d, 0x70, 0x6c, 0x65, 0x2e, 0x63, 0x6f, 0x6d], 16, 1, 4294967295, [0x02, 0xc0, 0x0c]⟩,
+                ⟨[0x4d, 0x61, 0x69, 0x6c, 0x2e, 0x65, 0x78, 0x61, 0x6d, 0x70, 0x6c, 0x65, 0x2e, 0x63, 0x6f, 0x6d], 15, 1, 60, [0xc0, 0x0c, 0x04, 0x6d, 0x61, 0x69, 0x6c, 0x00]⟩],
+    authorities := [], additionals := [⟨[], 41, 4096, 0, []⟩] }
+
+-- … and round-trip (computed by the kernel on the model)
+example : (pack noIdna exampleMsg).bind (unpack noIdna) = some exampleMsg := by decide +kernel
+-- the decoder rejects things: truncated header, self-pointing name, trailing byte
+example : unpack noIdna [0, 1, 2] = none := by decide +kernel
+example : unpack noIdna [0,1,1,0,0,1,0,0,0,0,0,0, 0xc0,0x0c, 0,1,0,1] = none := by decide +kernel
+example : unpack noIdna [0,1,1,0,0,1,0,0,0,0,0,0, 0, 0,1,0,1, 0xff] = none := by decide +kernel
+-- compressed names are expanded (SOA-style record with two pointers, serial 0xC00CC00C kept)
+example : (unpack noIdna [0,1,0x81,0x80,0,1,0,1,0,0,0,0, 1,0x61,0, 0,6,0,1, 0xc0,0x0c, 0,6,0,1, 0,0,0,9, 0,8,
+    0xc0,0x0c, 0xc0,0x0c, 0xc0,0x0c,0xc0,0x0c]).map (fun m => m.answers.map (·.data)) =
+    some [[1,0x61,0, 1,0x61,0, 0xc0,0x0c,0xc0,0x0c]] := by decide +kernel
+-- the guard of `reencode_stable_partial` is satisfiable and not trivial
+example : rdataPlain 15 [0xc0, 0x0c, 0x04, 0x6d, 0x61, 0x69, 0x6c, 0x00] = true ∧ rdataPlain 15 [0, 10, 0xc0, 0x0c] = false ∧
+    rdataPlain 16 [0x02, 0xc0, 0x0c] = true := by decide +kernel
+
+-- TXT (16), A (1), AAAA (28), HINFO (13), OPT (41), HTTPS (65) are opaque; MX, SOA, SRV are not
+example : layoutOf 16 = none ∧ layoutOf 1 = none ∧ layoutOf 28 = none ∧ layoutOf 13 = none ∧ layoutOf 41 = none ∧
+    layoutOf 65 = none ∧ layoutOf 15 ≠ none ∧ layoutOf 6 ≠ none ∧ layoutOf 33 ≠ none := by decide
+
+/-! ### the theorems -/
+
+private theorem packList_wf {α} {f : α → Option Bytes} : ∀ xs : List α, (∀ x ∈ xs, ∃ w, f x = some w) →
+    ∃ w, packList f xs = some w := by
+  intro xs
+  induction xs with
+  | nil => intro _; exact ⟨[], rfl⟩
+  | cons x xs ih =>
+    intro h
+    obtain ⟨a, ha⟩ := h x (by simp)
+    obtain ⟨b, hb⟩ := ih (fun y hy => h y (by simp [hy]))
+    exact ⟨a ++ b, by simp [packList, ha, hb]⟩
+
+private theorem packQuestion_wf {I : Idna} {q : Question} (h : WFQuestion I q) : ∃ w, packQuestion I q = some w := by
+  obtain ⟨hc, ht, hcl⟩ := h
+  obtain ⟨ls, ps, hp, _⟩ := packName_canon hc
+  simp [packQuestion, hp, putU16, ht, hcl]
+
+private theorem packRR_wf {I : Idna} {r : RR} (h : WFRR I r) : ∃ w, packRR I r = some w := by
+  obtain ⟨hc, ht, hcl, httl, hdl, _⟩ := h
+  obtain ⟨ls, ps, hp, _⟩ := packName_canon hc
+  simp [packRR, hp, putU16, putU32, ht, hcl, httl, hdl]
+
+private theorem putU16_ok {n : Nat} (h : n < 65536) : ∃ b, putU16 n = some b := by simp [putU16, h]
+
+private theorem flags_lt (m : Msg) (h1 : m.opCode < 16) (h2 : m.reserved < 8) (h3 : m.rcode < 16) : flagsOf m < 65536 := by
+  unfold flagsOf b2n
+  cases m.query <;> cases m.aa <;> cases m.tc <;> cases m.rd <;> cases m.ra <;> simp <;> omega
+
+private theorem flags_decode (m : Msg) (h1 : m.opCode < 16) (h2 : m.reserved < 8) (h3 : m.rcode < 16) :
+    decide (flagsOf m / 32768 % 2 = 0) = m.query ∧ flagsOf m / 2048 % 16 = m.opCode ∧
+    decide (flagsOf m / 1024 % 2 = 1) = m.aa ∧ decide (flagsOf m / 512 % 2 = 1) = m.tc ∧
+    decide (flagsOf m / 256 % 2 = 1) = m.rd ∧ decide (flagsOf m / 128 % 2 = 1) = m.ra ∧
+    flagsOf m / 16 % 8 = m.reserved ∧ flagsOf m % 16 = m.rcode := by
+  unfold flagsOf b2n
+  cases m.query <;> cases m.aa <;> cases m.tc <;> cases m.rd <;> cases m.ra <;> simp <;> omega
+
+/-- **C25 (round trip).** Every well-formed message — all header fields, types, classes and TTLs over their full wire
+    ranges, IDNA-canonical names, arbitrary record data (for a type whose data is defined to hold domain names: no
+    compression pointer in those fields) — encodes, and the bytes decode to the same message. For every idna codec. -/
+theorem roundtrip (I : Idna) (m : Msg) (h : WellFormed I m) :
+    ∃ b, pack I m = some b ∧ unpack I b = some m := by
+  obtain ⟨hid, hop, hres, hrc, hnq, hnan, hnns, hnar, hq, han, hns, har⟩ := h
+  obtain ⟨qsb, hqs⟩ := packList_wf m.questions (fun q hq' => packQuestion_wf (hq q hq'))
+  obtain ⟨anb, hanb⟩ := packList_wf m.answers (fun r hr => packRR_wf (han r hr))
+  obtain ⟨nsb, hnsb⟩ := packList_wf m.authorities (fun r hr => packRR_wf (hns r hr))
+  obtain ⟨arb, harb⟩ := packList_wf m.additionals (fun r hr => packRR_wf (har r hr))
+  have hrs : packList (packRR I) (m.answers ++ m.authorities ++ m.additionals) = some (anb ++ nsb ++ arb) :=
+    packList_append _ _ _ _ (packList_append _ _ _ _ hanb hnsb) harb
+  have hfl := flags_lt m hop hres hrc
+  obtain ⟨f1, f2, f3, f4, f5, f6, f7, f8⟩ := flags_decode m hop hres hrc
+  -- the six header words
+  obtain ⟨a, ha⟩ := putU16_ok (n := m.id) hid
+  obtain ⟨b, hb⟩ := putU16_ok (n := (flagsOf m)) hfl
+  obtain ⟨c, hc⟩ := putU16_ok (n := m.questions.length) hnq
+  obtain ⟨d, hd⟩ := putU16_ok (n := m.answers.length) hnan
+  obtain ⟨e, he⟩ := putU16_ok (n := m.authorities.length) hnns
+  obtain ⟨f, hf⟩ := putU16_ok (n := m.additionals.length) hnar
+  have hguard : ¬ (65535 < m.id ∨ 15 < m.opCode ∨ 7 < m.reserved ∨ 15 < m.rcode) := by omega
+  refine ⟨a ++ b ++ c ++ d ++ e ++ f ++ qsb ++ (anb ++ nsb ++ arb), ?_, ?_⟩
+  · simp only [pack, hguard, if_false, ha, hb, hc, hd, he, hf, hqs, hrs]
+  · -- positions
+    let buf := a ++ b ++ c ++ d ++ e ++ f ++ qsb ++ (anb ++ nsb ++ arb)
+    have h0 : buf.drop 0 = a ++ (b ++ c ++ d ++ e ++ f ++ qsb ++ (anb ++ nsb ++ arb)) := by simp [buf]
+    have h2 : buf.drop 2 = b ++ (c ++ d ++ e ++ f ++ qsb ++ (anb ++ nsb ++ arb)) := by
+      have := drop_of_drop_append h0; rw [putU16_len ha] at this; simpa using this
+    have h4 : buf.drop 4 = c ++ (d ++ e ++ f ++ qsb ++ (anb ++ nsb ++ arb)) := by
+      have := drop_of_drop_append h2; rw [putU16_len hb] at this; simpa using this
+    have h6 : buf.drop 6 = d ++ (e ++ f ++ qsb ++ (anb ++ nsb ++ arb)) := by
+      have := drop_of_drop_append h4; rw [putU16_len hc] at this; simpa using this
+    have h8 : buf.drop 8 = e ++ (f ++ qsb ++ (anb ++ nsb ++ arb)) := by
+      have := drop_of_drop_append h6; rw [putU16_len hd] at this; simpa using this
+    have h10 : buf.drop 10 = f ++ (qsb ++ (anb ++ nsb ++ arb)) := by
+      have := drop_of_drop_append h8; rw [putU16_len he] at this; simpa using this
+    have h12 : buf.drop 12 = qsb ++ (anb ++ nsb ++ arb) := by
+      have := drop_of_drop_append h10; rw [putU16_len hf] at this; simpa using this
+    obtain ⟨c1, hu1, hk1⟩ := unpackQuestions_packed (I := I) (buf := buf) m.questions 12 [] qsb (anb ++ nsb ++ arb) hqs hq h12
+      (by intro k hk; simp [keys] at hk)
+    have h12a : buf.drop (12 + qsb.length) = anb ++ (nsb ++ arb) := by
+      have := drop_of_drop_append h12; simpa using this
+    obtain ⟨c2, hu2, hk2⟩ := unpackRRs_packed (I := I) (buf := buf) m.answers (12 + qsb.length) c1 anb (nsb ++ arb) hanb han h12a hk1
+    have h12b : buf.drop (12 + qsb.length + anb.length) = nsb ++ arb := drop_of_drop_append h12a
+    obtain ⟨c3, hu3, hk3⟩ := unpackRRs_packed (I := I) (buf := buf) m.authorities _ c2 nsb arb hnsb hns h12b hk2
+    have h12c : buf.drop (12 + qsb.length + anb.length + nsb.length) = arb ++ [] := by
+      have := drop_of_drop_append h12b; simpa using this
+    obtain ⟨c4, hu4, hk4⟩ := unpackRRs_packed (I := I) (buf := buf) m.additionals _ c3 arb [] harb har h12c hk3
+    have hlen : 12 + qsb.length + anb.length + nsb.length + arb.length = buf.length := by
+      simp [buf, putU16_len ha, putU16_len hb, putU16_len hc, putU16_len hd, putU16_len he, putU16_len hf]; omega
+    show unpack I buf = some m
+    simp only [unpack, unpackFrom, getU16_put ha h0, getU16_put hb h2, getU16_put hc h4, getU16_put hd h6,
+      getU16_put he h8, getU16_put hf h10, hu1, hu2, hu3, hu4, hlen, if_true, f1, f2, f3, f4, f5, f6, f7, f8]
+
+/-- all resource records of a message -/
+def records (m : Msg) : List RR := m.answers ++ m.authorities ++ m.additionals
+
+/-- **C25 (re-encoding is stable) — full statement.** Not a theorem of the current code: see
+    `reencode_stable_counterexample` (finding F-C25a). -/
+def ReencodeStable (I : Idna) : Prop :=
+  ∀ b m, unpack I b = some m → ∃ b', pack I m = some b' ∧ unpack I b' = some m
+
+/-- **C25 (re-encoding is stable), partial.** Whatever bytes decode to a message (compressed names, pointer chains,
+    any idna codec): the message encodes again and those bytes decode to the same message — provided no record of a
+    name-bearing type fell back to the heuristic expansion, i.e. every record's data is `rdataPlain`
+    (always true for TXT, A, AAAA and every type without a name-bearing layout). The guard excludes exactly the
+    class of finding F-C25a. -/
+theorem reencode_stable_partial (I : Idna) (b : Bytes) (m : Msg) (h : unpack I b = some m)
+    (hplain : ∀ r ∈ records m, rdataPlain r.type r.data = true) :
+    ∃ b', pack I m = some b' ∧ unpack I b' = some m :=
+  roundtrip I m (unpack_wellFormed h hplain)
+
+/-- **C25 (re-encoding is stable) fails on the current code** (F-C25a): the decoded message encodes, but the
+    encoding decodes to a different message. -/
+theorem reencode_stable_counterexample : ¬ ReencodeStable noIdna := by
+  intro h
+  obtain ⟨m, hm, hne⟩ := witnessF25a_unstable
+  obtain ⟨b', hp, hu⟩ := h _ m hm
+  exact hne b' hp hu
+
+/-- **C25 (decoding is total).** `unpack` is a total function from byte strings to "a message or a parse error".
+    The substance is that Lean accepted the definitions: every loop of the decoder is structural or well-founded on
+    `countFree` (see `pointer_chase_measure`), without fuel. -/
 theorem unpack_total (I : Idna) (b : Bytes) : unpack I b = none ∨ ∃ m, unpack I b = some m := by
   cases h : unpack I b
   · exact Or.inl rfl
   · exact Or.inr ⟨_, rfl⟩
 
+/-- the termination measure of both pointer-chasing loops (`unpack_from_with_compression`'s cache, `_expand_name`'s
+    `seen` set): following a pointer from an offset inside the buffer that was not visited before strictly decreases
+    the number of unvisited offsets -/
+theorem pointer_chase_measure (buf : Bytes) (off : Nat) (visited : List Nat) (h1 : off < buf.length)
+    (h2 : visited.contains off = false) :
+    countFree buf.length (off :: visited) < countFree buf.length visited :=
+  countFree_lt _ _ _ h1 h2
+
+/-- a pointer that leads back to a name that is still being unpacked is a parse error (never a hang) -/
+theorem pointer_loop_is_error (I : Idna) (buf : Bytes) (off : Nat) (cache : Cache) (depth : Nat)
+    (h : cache.lookup off = some none) : unpackName I buf off cache depth = none :=
+  unpackName_loop h
+
+/-- the same for record data: an offset seen before ends the expansion with an error -/
+theorem expand_loop_is_error (buf : Bytes) (off : Nat) (seen : List Nat) (h : seen.contains off = true) :
+    expandName buf off seen = none :=
+  expandName_seen h
+
+/-- **C25/C26 (opaque types byte for byte).** A record whose type has no name-bearing layout (TXT, A, AAAA, unknown
+    types …) gets exactly the bytes of its RDATA, whatever they look like. -/
+theorem opaque_types_bytewise (buf : Bytes) (off len ty : Nat) (h : layoutOf ty = none) :
+    rrData buf off len ty = some ((buf.drop off).take len) := by
+  simp [rrData, h]
+
 end MitmVerif.Props.C25
+
